@@ -38,7 +38,9 @@ RULE = ("streams: flat = members of the theorems' family (one 01 group; fixed el
         "the record long enough; each through RECFM N, V, VB and F; judged with the kind's decoder, the record checked with the encoders only, every "
         "row also against the walk over Python's integers (branch + 100 * kind). negative-counter = RECFM V files of such records in which some "
         "counters hold NEGATIVE values (zone / sign nibble D or B, two's complement FF..), counters declared before the first table, incl. the values "
-        "for which table start + item size * count = 0 (branch 60 + kind, + 4 when a table's counter is negative: finding K-negative-counter).")
+        "for which table start + item size * count = 0 under the walk before the fix; the records before the first such record must be delivered and "
+        "that record REFUSED with ValueError (fix of finding K-negative-counter; branch 60 + kind, + 4 when a table's counter is negative); its "
+        "first case is the witness of that former finding.")
 TRIVIAL_BRANCHES = [0]
 ASSUMPTIONS = [
     "widths of elementary items are given to the judge as the widths C04's specification lists; the emitted schema is compared with the model's (C01/C07)",
@@ -324,7 +326,7 @@ def signed_paths(tree, env):
 
 
 def witness_case():
-    """the witness of finding K-negative-counter (known_findings.json; Spec/CountersWf.v neg_tree / neg_rec):
+    """the witness of the repaired finding K-negative-counter (known_findings.json, fixed; Spec/CountersWf.v neg_tree / neg_rec):
     01 R. 05 N PIC S9. 05 T PIC X(2) OCCURS 0 TO 5 DEPENDING ON N. 05 Z PIC X(3).  with N = F0 D2 (-2), then N = F0 D1 (-1: table
     start 2 + item size 2 * -1 = 0, which Location.__init__ reads as no end), then N = F0 C2 (2: an ordinary record)"""
     mk = lambda i, pic, size: dict(id=i, kind="elem", pic=pic, usage="DISPLAY", size=size, occ=None, redef=None, filler=False, kids=[])
